@@ -844,6 +844,92 @@ def rule_pending_bits(ctx):
     ctx.floor(rid + ".counters", 1)
 
 
+def rule_scaninfo_eval(ctx):
+    """ScanMoreInfo::parse, evaluated from MIR with scripted field reads, decodes the two delta-coded block lists independently"""
+    from .. import absint
+    rid = "R-JBR-SCANINFO"
+    ctx.rule(rid, "jbrd scan info (ISO/IEC 18181-2 Annex on JPEG reconstruction data): reset_points and extra_zero_runs are two lists of "
+                  "block indices, each delta-coded from its own start (first entry absolute, then previous + delta + 1), indices above "
+                  "3 << 26 rejected.  jxl_jbr::ScanMoreInfo::parse is evaluated from MIR (nothing is run) with Bitstream::read_u32 "
+                  "replaced by a scripted source on four scripts (both lists non-empty, one empty, a large delta, a value over the "
+                  "limit) and the decoded set / map compared with the definition.  A running index shared by the two lists (seed "
+                  "C17n) shifts every extra zero run by the last reset point")
+    cr = ctx.prog.crate("jxl_jbr")
+    fs = [g for g in cr.fn_list if "ScanMoreInfo" in g.path and g.path.endswith("::parse") and g.kind == "AssocFn"]
+    adt = cr.adts.get("jxl_jbr::ScanMoreInfo")
+    if len(fs) != 1 or adt is None:
+        ctx.anchor_missing(rid, "<jxl_jbr::ScanMoreInfo as Bundle>::parse")
+        return
+    f = fs[0]
+    ctx.seen(f)
+    names = [x[0] for x in adt["variants"][0]["fields"]]
+    if sorted(names) != ["extra_zero_runs", "reset_points"]:
+        ctx.anchor_missing(rid, "ScanMoreInfo { reset_points, extra_zero_runs }")
+        return
+    LIM = 3 << 26
+    scripts = [
+        ("three reset points, three zero runs", [5, 0, 7], [(2, 4), (1, 0), (3, 9)]),
+        ("no reset point, one zero run", [], [(1, 3)]),
+        ("one reset point, no zero run", [0], []),
+        ("reset points up to the limit, then a zero run at 0", [LIM - 10, 9], [(4, 0), (1, LIM - 1)]),
+        ("reset point over the limit", [LIM - 10, 10], []),
+        ("zero run over the limit", [1], [(1, 7), (1, LIM)]),
+    ]
+    rows, bad, undec = 0, None, None
+    for name, resets, runs in scripts:
+        seq = [len(resets)] + list(resets) + [len(runs)] + [v for nr, rl in runs for v in (nr, rl)]
+        it = iter(seq)
+
+        def ru(args, it=it):
+            try:
+                return absint.Enum("core::result::Result", 0, "Ok", [next(it)])
+            except StopIteration:
+                raise absint.Unsupported("the parser reads more fields than the definition")
+        want, last, ok = [set(), {}], None, True
+        for d in resets:
+            last = d if last is None else last + d + 1
+            ok = ok and last <= LIM
+            want[0].add(last)
+        last = None
+        for nr, rl in runs:
+            last = rl if last is None else last + rl + 1
+            ok = ok and last <= LIM
+            want[1][last] = nr
+        ev = absint.Evaluator(ctx.prog)
+        ev.max_steps = 200000
+        ev.intercept = {"Bitstream::<'_>::read_u32": ru, "Bitstream::read_u32": ru}
+        try:
+            r = ev.call_fn(f, [absint.Ref(("ext", "bitstream")), ()])
+        except absint.Unsupported as e:
+            undec = "script `%s`: %s" % (name, e)
+            break
+        rows += 1
+        got = None
+        if isinstance(r, absint.Enum) and r.name == "Ok" and isinstance(r.fields[0], absint.Struct):
+            d = dict(zip(names, r.fields[0].fields))
+            rp, ez = d["reset_points"], d["extra_zero_runs"]
+            if isinstance(rp, absint.BufView) and isinstance(ez, absint.BufView):
+                got = [set(rp.items()), dict(tuple(x) for x in ez.items())]
+        elif isinstance(r, absint.Enum) and r.name == "Err":
+            got = "err"
+        if got is None:
+            undec = "script `%s`: result %r" % (name, r)
+            break
+        w = want if ok else "err"
+        if got != w and bad is None:
+            bad = (name, got, w)
+    ctx.count(rid + ".scripts", rows)
+    if undec:
+        ctx.bad(rid, "parse|not-evaluable", "ScanMoreInfo::parse is no longer a function the evaluator can decide (%s)" % undec, fn=f)
+        return
+    ctx.floor(rid + ".scripts", 6)
+    if bad:
+        ctx.bad(rid, "parse|delta-lists", "script `%s`: decoded [reset points, zero runs] = %s, the definition gives %s: the reconstructed scan "
+                "places restart flushes or zero-run symbols at the wrong blocks" % bad, fn=f)
+    else:
+        ctx.ok(rid, "parse|delta-lists", "%d scripts: both lists decode from their own start" % rows, nontrivial=True, fn=f)
+
+
 def main(pid, tier, repo=None):
     configs = ("workspace",) if tier == "quick" else ("workspace", "norayon")
     ctx = Ctx(pid, tier, configs=configs, repo=repo)
@@ -856,6 +942,7 @@ def main(pid, tier, repo=None):
         rule_layout(ctx)
         rule_seglen(ctx)
         rule_pending_bits(ctx)
+        rule_scaninfo_eval(ctx)
         fieldrange.run(ctx, LIB_CRATES, only_crates=("jxl_jbr", "jxl_oxide"))
         searchunwrap.run(ctx, ["jxl_jbr"], floor=20)
         from . import fixguards
